@@ -18,12 +18,17 @@
      wprocs (second extension): procs[i].popen = the object is a psutil.Popen, procs[i].rc0 = {"v": its
              subprocess returncode before the call}; oids = object identity of each element of `list`;
              hashable = false: some element of the list cannot be hashed
+   (seeded round 5) every `env` may carry `view = {hideAt, showAt?}`: the procfs tree does not list the process
+             during [hideAt, showAt); wait / pwait / popen run `waitPidV` / `procWaitV` / `popenWaitV` with the
+             probe the translator found (`cfg.probeDirect` / `cfg.probe`); spec adds noResultWhileHidden /
+             noGoneWhileHidden. The wait_procs model is view-free (`C15_check_gone_any_view`).
    Every answer is {"model": …, "spec": …}: `spec` lists the Spec clauses violated by the model's
    observation and (when `obs` is supplied) by the implementation's observation. -/
 import PsutilModel.Base.Proto
 import PsutilModel.Model.C15Gen
 import PsutilModel.Model.C15R2
 import PsutilModel.Model.C15R3
+import PsutilModel.Model.C15Probe
 import PsutilModel.Spec.C15
 open Lean Psutil Psutil.Proto Psutil.C15
 
@@ -53,6 +58,17 @@ def asEnv (j : Json) : R Env := do
   -- calls beyond the listed ones are interrupted iff `eintrTail`
   let tail := (← optF asBool j "eintrTail").getD false
   pure { kind := kind, exitAt := exitAt, eintr := fun n => pat.getD n tail }
+
+/-- (seeded round 5) what the procfs tree shows of the process: `env.view = {hideAt, showAt?}` = not listed
+    during [hideAt, showAt); absent = listed for as long as the process exists -/
+def asView (j : Json) : R View := do
+  match ← optF pure j "view" with
+  | none => pure View.full
+  | some v =>
+    if v.isNull then pure View.full else
+    let h ← ratF v "hideAt"
+    let s ← optRatF v "showAt"
+    pure (View.window h s)
 
 def eintrFree (j : Json) : R Bool := do
   let pat ← optF (asList asBool) j "eintr"
@@ -105,6 +121,7 @@ def handleWait (j : Json) : R Json := do
   let envJ ← field j "env"
   let env ← asEnv envJ
   let clean0 ← eintrFree envJ
+  let view ← asView envJ
   let pidI ← intF j "pid"
   let pid := pidI.toNat
   let timeout ← optRatF j "timeout"
@@ -112,14 +129,15 @@ def handleWait (j : Json) : R Json := do
   let fuel ← natF j "fuel"
   let nwait0 := (← optF asNat j "nwait0").getD 0
   -- the integer-pid model: the pid test is the one the translator found (facts pidRejects*)
-  let (o, s) := waitPidI cfg env pidI timeout fuel start nwait0
+  -- (seeded round 5) non-children are polled with the probe the translator found, under the case's procfs view
+  let (o, s) := waitPidV cfg cfg.probeDirect env view pidI timeout fuel start nwait0
   let ask : Spec.Ask := ⟨env, pid, timeout, start⟩
   let clean := clean0 && decide (0 < pidI) && !(negative timeout)
   let valid := decide (0 < pidI) && !(negative timeout)
   let mobs : Spec.Obs := ⟨o, s.now, s.sleeps⟩
   let judge (ob : Spec.Obs) : List String :=
     (if Spec.nonPositivePidRefused pidI start ob then [] else ["nonPositivePidRefused"]) ++
-    (if pidI < 0 then [] else Spec.violations ask ob clean ++ Spec.extraViolations ask ob)
+    (if pidI < 0 then [] else Spec.violations ask ob clean ++ Spec.extraViolations ask ob ++ Spec.viewViolations ask view ob)
   -- clauses at FULL strength over the stated quantifier (EINTR on any call): reported separately
   let full (ob : Spec.Obs) : List String :=
     if pidI < 0 then [] else
@@ -165,11 +183,11 @@ def asPCall (j : Json) : R PCall := do
          osCalls := (← optF asNat j "oscalls").getD 0 }
 
 /-- run the calls in sequence on one object; per call: model obs, model/impl violations -/
-def runPCalls (env : Env) (clean0 : Bool) (fuel : Nat) :
+def runPCalls (env : Env) (view : View) (clean0 : Bool) (fuel : Nat) :
     List PCall → PObj → Option Outcome → Option Outcome → List Json → List Json
   | [], _, _, _, acc => acc.reverse
   | c :: cs, p, firstM, firstI, acc =>
-    let r := procWaitI cfg env c.timeout fuel c.at_ p
+    let r := procWaitV cfg cfg.probe env view c.timeout fuel c.at_ p
     let ask : Spec.Ask := ⟨env, p.pid, c.timeout, c.at_⟩
     let clean := clean0 && decide (0 < p.pid) && !(negative c.timeout)
     let mobs : Spec.Obs := ⟨r.out, r.now, r.sleeps⟩
@@ -181,7 +199,7 @@ def runPCalls (env : Env) (clean0 : Bool) (fuel : Nat) :
         (if Spec.negativeIsValueError ask ob then [] else ["negativeIsValueError"]) ++
         (if negative c.timeout then [] else
           if Spec.cachedOk f ob c.at_ osCalls then [] else ["cached"])
-      | none => Spec.violations ask ob clean ++ Spec.extraViolations ask ob
+      | none => Spec.violations ask ob clean ++ Spec.extraViolations ask ob ++ Spec.viewViolations ask view ob
     let mV := later firstM mobs (r.obj.nWait - p.nWait)
     let iV := c.obs.map fun ob => later firstI ob c.osCalls
     let isRes (o : Outcome) : Bool := match o with | .code _ | .none => true | _ => false
@@ -194,7 +212,7 @@ def runPCalls (env : Env) (clean0 : Bool) (fuel : Nat) :
       ("model", jObj [("out", jOutcome r.out), ("ret", jRat r.now), ("sleeps", jList jRat r.sleeps),
                       ("nwait", jNat (r.obj.nWait - p.nWait))]),
       ("spec", specPart mV iV)]
-    runPCalls env clean0 fuel cs r.obj firstM' firstI' (ans :: acc)
+    runPCalls env view clean0 fuel cs r.obj firstM' firstI' (ans :: acc)
 
 def handlePWait (j : Json) : R Json := do
   let envJ ← field j "env"
@@ -206,7 +224,7 @@ def handlePWait (j : Json) : R Json := do
   let calls ← listF asPCall j "calls"
   let p : PObj := ⟨pid, cached0, 0, none⟩
   let first := cached0.map Outcome.ofValue
-  let outs := runPCalls env clean0 fuel calls p first first []
+  let outs := runPCalls env (← asView envJ) clean0 fuel calls p first first []
   return jObj [("model", Json.arr (outs.map fun o => (o.getObjValD "model")).toArray),
                ("spec", Json.arr (outs.map fun o => (o.getObjValD "spec")).toArray)]
 
@@ -225,13 +243,13 @@ def asQCall (j : Json) : R QCall := do
 
 /-- `Popen.wait` calls in sequence on one object. `storedI` = the returncode the IMPLEMENTATION's
     object was last seen to hold, `firstM/firstI` = the first result (None) a call gave. -/
-def runQCalls (env : Env) (clean0 : Bool) (fuel : Nat) :
+def runQCalls (env : Env) (view : View) (clean0 : Bool) (fuel : Nat) :
     List QCall → PopenObj → Option Int → Option Outcome → Option Outcome → List Json → List Json
   | [], _, _, _, _, acc => acc.reverse
   | c :: cs, q, storedI, firstM, firstI, acc =>
     let q0 := match c.ext with | some v => q.extSet v | none => q
     let storedI0 := match c.ext with | some v => some v | none => storedI
-    let r := popenWait cfg env c.timeout fuel c.at_ q0
+    let r := popenWaitV cfg cfg.probe env view c.timeout fuel c.at_ q0
     let ask : Spec.Ask := ⟨env, q0.proc.pid, c.timeout, c.at_⟩
     let clean := clean0 && decide (0 < q0.proc.pid) && !(negative c.timeout)
     let mobs : Spec.Obs := ⟨r.out, r.now, r.sleeps⟩
@@ -249,7 +267,7 @@ def runQCalls (env : Env) (clean0 : Bool) (fuel : Nat) :
         (match first with
          | some f => negV ++ (if negative c.timeout then [] else
                                if Spec.cachedOk f ob c.at_ osCalls then [] else ["cached"])
-         | none => Spec.violations ask ob clean ++ Spec.extraViolations ask ob) ++
+         | none => Spec.violations ask ob clean ++ Spec.extraViolations ask ob ++ Spec.viewViolations ask view ob) ++
         (match rcAfter with
          | some a => if Spec.popenStoredOk ob a then [] else ["popenStores"]
          | none => [])
@@ -266,7 +284,7 @@ def runQCalls (env : Env) (clean0 : Bool) (fuel : Nat) :
       ("model", jObj [("out", jOutcome r.out), ("ret", jRat r.now), ("sleeps", jList jRat r.sleeps),
                       ("nwait", jNat (r.obj.proc.nWait - q0.proc.nWait)), ("rc", jVal r.obj.subRc)]),
       ("spec", specPart mV iV)]
-    runQCalls env clean0 fuel cs r.obj storedI' firstM' firstI' (ans :: acc)
+    runQCalls env view clean0 fuel cs r.obj storedI' firstM' firstI' (ans :: acc)
 
 def handlePopen (j : Json) : R Json := do
   let envJ ← field j "env"
@@ -276,7 +294,7 @@ def handlePopen (j : Json) : R Json := do
   let fuel ← natF j "fuel"
   let calls ← listF asQCall j "calls"
   let q : PopenObj := ⟨⟨pid, none, 0, none⟩, none⟩
-  let outs := runQCalls env clean0 fuel calls q none none none []
+  let outs := runQCalls env (← asView envJ) clean0 fuel calls q none none none []
   return jObj [("model", Json.arr (outs.map fun o => (o.getObjValD "model")).toArray),
                ("spec", Json.arr (outs.map fun o => (o.getObjValD "spec")).toArray)]
 
@@ -286,12 +304,14 @@ structure PSpec where
   prewait : Bool        -- `proc.wait(0)` was called on the object just before `wait_procs`
   clean : Bool          -- no waitpid call on this PID is interrupted
   popen : Bool          -- the object is a `psutil.Popen`
+  view : View           -- (seeded round 5) what the procfs tree shows of this process
   rc0 : Option Int      -- … whose subprocess returncode was this before the call (poll() of subprocess)
 
 def asPSpec (j : Json) : R PSpec := do
   let envJ ← field j "env"
   pure { pid := ← natF j "pid", env := ← asEnv envJ,
          prewait := (← optF asBool j "prewait").getD false, clean := ← eintrFree envJ,
+         view := ← asView envJ,
          popen := (← optF asBool j "popen").getD false,
          rc0 := ((← optF asVal j "rc0").getD none) }
 
@@ -379,13 +399,17 @@ def handleWProcs (j : Json) : R Json := do
   let cleanOf : Nat → Bool := fun pid => match ps.find? (·.pid == pid) with
     | some p => p.clean
     | none => false
+  let viewOf : Nat → View := fun pid => match ps.find? (·.pid == pid) with
+    | some p => p.view
+    | none => View.full
   let implObsJ ← optF pure j "obs"
   let implSeen ← (match implObsJ with
     | some oj => (asSeen oj).map some
     | none => pure none)
   let seesV (seen : List CbView) (log : List Nat) : List String :=
     if Spec.callbackSees ask seen log then [] else ["callbackSees"]
-  let implV := implV.map fun ob => Spec.wpViolations ask ob cleanOf ++ seesV (implSeen.getD []) ob.cbLog
+  let implV := implV.map fun ob => Spec.wpViolations ask ob cleanOf ++ seesV (implSeen.getD []) ob.cbLog ++
+    Spec.wpViewViolations ask viewOf ob
   let refusal := Spec.wpRefusalM timeout hashable (cb != .absent) (cb == .callable)
   let specJ (mV : List String) : Json :=
     jObj [("model_violations", jStrs mV), ("impl_violations", jOpt jStrs implV), ("refusal", jRefusal refusal)]
@@ -404,7 +428,7 @@ def handleWProcs (j : Json) : R Json := do
         ("calls", jList (fun c => Json.arr #[jNat c.1, jRat c.2]) w.calls),
         ("subs", jList (fun p => Json.arr #[jNat p, jOptVal (m.sub p)]) (pids.filter isPopen)),
         ("survivors", jList (fun (x : Item) => Json.arr #[jNat x.pid, jNat x.oid]) (setOf items))]),
-      ("spec", specJ (Spec.wpViolations ask mobs cleanOf ++ seesV w.cbSeen w.cbLog))]
+      ("spec", specJ (Spec.wpViolations ask mobs cleanOf ++ seesV w.cbSeen w.cbLog ++ Spec.wpViewViolations ask viewOf mobs))]
 
 def handle (_ : Unit) (j : Json) : R (Unit × Json) := do
   let op ← strF j "op"
@@ -418,7 +442,11 @@ def handle (_ : Unit) (j : Json) : R (Unit × Json) := do
       ("pidRejectsZero", Json.bool cfg.pidRejectsZero), ("pidRejectsNeg", Json.bool cfg.pidRejectsNeg),
       ("pidRejectsPos", Json.bool cfg.pidRejectsPos), ("flagsTimeout", jNat cfg.flagsTimeout),
       ("flagsBlocking", jNat cfg.flagsBlocking), ("rcBeforeCb", Json.bool cfg.rcBeforeCb),
-      ("goneBeforeCb", Json.bool cfg.goneBeforeCb)])
+      ("goneBeforeCb", Json.bool cfg.goneBeforeCb),
+      ("pollAsksHook", Json.bool cfg.pollAsksHook), ("hookDefaultIsKill", Json.bool cfg.hookDefaultIsKill),
+      ("linuxWaitPassesNoHook", Json.bool cfg.linuxWaitPassesNoHook),
+      ("probe", if cfg.probe == .kill then "kill" else "procfs"),
+      ("probeDirect", if cfg.probeDirect == .kill then "kill" else "procfs")])
   else if op == "causes" then
     return ((), jList (fun c => Json.arr #[jNat c.status, jInt c.value]) Spec.allCauses)
   else if op == "decode" then
